@@ -94,7 +94,7 @@ def close(y, ref, abstol):
     return abs(y - float(ref)) <= 2e-9 * abs(float(ref)) + abstol
 
 
-def run_case(A, b, r, si, exe, split=None, idxtext=None, xgrid=None, xs=None):
+def run_case(A, b, r, si, exe, split=None, idxtext=None, xgrid=None, xs=None, ns=None):
     """returns (ok, key, what, cls).  split/idxtext/xgrid given: index-layout family (the index file text is written verbatim)."""
     n = len(A)
     layout_family = split is not None
@@ -106,10 +106,10 @@ def run_case(A, b, r, si, exe, split=None, idxtext=None, xgrid=None, xs=None):
     os.makedirs(wd)
     with open(os.path.join(wd, "g.gmc"), "w") as f:
         for row in A:
-            f.write(" ".join(str(v) for v in row) + "\n")
+            f.write(" ".join(repr(v) if isinstance(v, float) else str(v) for v in row) + "\n")
     with open(os.path.join(wd, "g.imc"), "w") as f:
         for i in range(n):
-            f.write("%s %d i\n" % (XGRID[i], b[i]))
+            f.write("%s %s i\n" % (XGRID[i], repr(b[i]) if isinstance(b[i], float) else "%d" % b[i]))
     with open(os.path.join(wd, "g.idx"), "wb") as f:
         if idxtext is not None:
             f.write(idxtext.encode())
@@ -124,10 +124,15 @@ def run_case(A, b, r, si, exe, split=None, idxtext=None, xgrid=None, xs=None):
         return False, key, "csg_imc_solve exited with %d%s: %s" % (
             p.returncode, " on index file %r" % idxtext if layout_family else "", out[-300:].replace("\n", " | ")), None
     rr = Fr(r)
-    if xs is None:
+    if ns is not None and not ns["judge"]:
+        xs = [None] * n          # values not judged (r = 0 is outside the statement / too ill-conditioned for IEEE double)
+    elif xs is None:
         xs = solve_exact(A, b, rr)
-    atb = max(abs(sum(A[k][i] * b[k] for k in range(n))) for i in range(n))
-    abstol = 1e-11 * max(float(atb), 1.0) / float(rr)
+    if ns is None:
+        atb = max(abs(sum(A[k][i] * b[k] for k in range(n))) for i in range(n))
+        abstol = 1e-11 * max(float(atb), 1.0) / float(rr)
+    elif ns["judge"]:
+        abstol = ns["tol_rel"] * max(abs(float(v)) for v in xs)
     # files
     expected_files = sorted(name + ".dpot.imc" for name, _, _ in split)
     got_files = sorted(f for f in os.listdir(wd) if f.endswith(".dpot.imc"))
@@ -144,7 +149,19 @@ def run_case(A, b, r, si, exe, split=None, idxtext=None, xgrid=None, xs=None):
                 return False, "imc-split-rows", "%s.dpot.imc row for index %d has x=%r flag=%r, expected x=%s flag=i" % (
                     name, row, x, flag, XGRID[row - 1]), None
             got[row] = y
+    if ns is not None and not ns["judge"]:
+        return True, "", "tables present, values not judged", ("ns-notjudged", n)
     bad = [i for i in range(n) if (i + 1) in got and not close(got[i + 1], xs[i], abstol)]
+    if ns is not None:
+        xm = max(abs(float(v)) for v in xs)
+        ns["ratio"] = max(abs(got[i + 1] - float(xs[i])) / (2e-9 * abs(float(xs[i])) + abstol) for i in range(n) if (i + 1) in got)
+        if bad:
+            return False, "imc-nearsingular-wrong-solution", (
+                "A=%s b=%s r=%s (smallest singular value %s, cond(A^T A+rI)~%.2g): written x=%s, exact solution of (A^T A+rI)x=-A^T b is %s "
+                "(tolerance %.2g of max|x|)" % (A, b, r, ns["sigma"], ns["kappa"], [got.get(i + 1) for i in range(n)],
+                                               [float(v) for v in xs], ns["tol_rel"])), None
+        return True, "", "x=%s (error/tolerance %.2g, cond %.2g)" % ([float(v) for v in xs], ns["ratio"], ns["kappa"]), \
+            ("ns", n, ns["sigma"], r)
     if bad:
         gv = [got.get(i + 1) for i in range(n)]
         what = "A=%s b=%s r=%s: written x=%s, exact solution of (A^T A+rI)x=-A^T b is %s" % (A, b, r, gv, [float(v) for v in xs])
@@ -164,6 +181,98 @@ def run_case(A, b, r, si, exe, split=None, idxtext=None, xgrid=None, xs=None):
     if layout_family:
         return True, "", "tables " + ", ".join("%s=rows %s" % (nme, rows) for nme, _, rows in split), cls
     return True, "", "x=%s" % [float(v) for v in xs], cls
+
+
+# ----------------------------------------------------------------------------- nearly rank-deficient family
+# A = U diag(d) V^T with exactly orthogonal rational U, V (Cayley transforms of small integer skew matrices), d = (3,2[,1],sigma),
+# every entry then rounded to the nearest double (that double is what is written, read and used by the exact reference);
+# b = U c with c_N = component along the small left singular vector.
+SIGMAS = ["1e-5", "3e-7", "1e-7", "1e-8"]
+RS_NS = ["0", "1e-12", "1e-9", "1e-6", "1e-3", "1"]
+SKEW = {3: [(1, 2, -1), (2, -1, 1), (1, 1, 3), (-1, 2, 2), (3, 1, -2), (1, -2, 1)],
+        4: [(1, 0, 2, -1, 1, 0), (0, 1, -1, 2, 0, 1), (1, 1, 0, 0, -1, 2), (2, -1, 1, 0, 1, 1)]}
+CVEC = [(1, -1, 2, 3), (2, 1, -3, -2)]
+
+
+def matmul(X, Y):
+    return [[sum(X[i][k] * Y[k][j] for k in range(len(Y))) for j in range(len(Y[0]))] for i in range(len(X))]
+
+
+def inverse(M):
+    n = len(M)
+    aug = [[Fr(v) for v in M[i]] + [Fr(int(i == j)) for j in range(n)] for i in range(n)]
+    for c in range(n):
+        p = next(i for i in range(c, n) if aug[i][c] != 0)
+        aug[c], aug[p] = aug[p], aug[c]
+        pv = aug[c][c]
+        aug[c] = [v / pv for v in aug[c]]
+        for i in range(n):
+            if i != c and aug[i][c] != 0:
+                f = aug[i][c]
+                aug[i] = [vi - f * vc for vi, vc in zip(aug[i], aug[c])]
+    return [row[n:] for row in aug]
+
+
+def cayley(n, params):
+    S = [[Fr(0)] * n for _ in range(n)]
+    it = iter(params)
+    for i in range(n):
+        for j in range(i + 1, n):
+            v = Fr(next(it))
+            S[i][j], S[j][i] = v, -v
+    I = [[Fr(int(i == j)) for j in range(n)] for i in range(n)]
+    Q = matmul([[I[i][j] - S[i][j] for j in range(n)] for i in range(n)], inverse([[I[i][j] + S[i][j] for j in range(n)] for i in range(n)]))
+    assert matmul(Q, transpose(Q)) == I, "Cayley transform not orthogonal"
+    return Q
+
+
+_ns_cache = {}
+
+
+def near_singular(n, iu, iv, sigma, ic):
+    key = (n, iu, iv, sigma, ic)
+    if key not in _ns_cache:
+        U, V = cayley(n, SKEW[n][iu]), cayley(n, SKEW[n][iv])
+        d = [Fr(3), Fr(2), Fr(1)][:n - 1] + [Fr(sigma)]
+        A = matmul([[U[i][k] * d[k] for k in range(n)] for i in range(n)], transpose(V))
+        b = [sum(U[i][k] * CVEC[ic][k] for k in range(n)) for i in range(n)]
+        _ns_cache[key] = ([[float(v) for v in row] for row in A], [float(v) for v in b])
+    return _ns_cache[key]
+
+
+def run_ns_case(n, iu, iv, sigma, r, ic, exe):
+    A, b = near_singular(n, iu, iv, sigma, ic)
+    rr, s2 = Fr(r), Fr(sigma) ** 2
+    kappa = float((9 + rr) / (s2 + rr))
+    tol_rel = 2e-13 * kappa          # ~1000 eps cond(A^T A + r I): forward error bound of the eigen-decomposition inverse
+    ns = dict(sigma=sigma, kappa=kappa, tol_rel=tol_rel, judge=(rr > 0 and tol_rel <= 0.3), ratio=0.0)
+    Af = [[Fr(v) for v in row] for row in A]     # exactly the doubles that are written and read
+    bf = [Fr(v) for v in b]
+    xs = solve_exact(Af, bf, rr) if ns["judge"] else None
+    si = 1 if n == 3 else 0
+    ok, key, what, cls = run_case(A, b, r, si, exe, xs=xs, ns=ns)
+    return ok, key, what, cls, ns
+
+
+def ns_string(n, iu, iv, sigma, r, ic):
+    return "fam=ns;N=%d;U=%d;V=%d;sig=%s;r=%s;c=%d" % (n, iu, iv, sigma, r, ic)
+
+
+def parse_ns(s):
+    kv = dict(p.split("=", 1) for p in s.split(";"))
+    return int(kv["N"]), int(kv["U"]), int(kv["V"]), kv["sig"], kv["r"], int(kv["c"])
+
+
+def enumerate_ns_cases(tier):
+    thorough = tier == "thorough"
+    for n in (3, 4):
+        k = len(SKEW[n])
+        pairs = [(i, j) for i in range(k) for j in range(k) if i != j] if thorough else [(2 * i, 2 * i + 1) for i in range(k // 2)]
+        for (iu, iv) in pairs:
+            for sigma in SIGMAS:
+                for r in RS_NS:
+                    for ic in (0, 1):
+                        yield n, iu, iv, sigma, r, ic
 
 
 # ----------------------------------------------------------------------------- index-file layout family (N = 12)
@@ -306,7 +415,9 @@ def main():
     a = pybsx.parse()
     exe = pybsx.exe("csg_imc_solve")
     if a.case:
-        if a.case.startswith("fam=idx"):
+        if a.case.startswith("fam=ns"):
+            ok, key, what, cls, ns = run_ns_case(*parse_ns(a.case), exe)
+        elif a.case.startswith("fam=idx"):
             M, S, lay = parse_lay(a.case)
             print("index file: %r" % render_index(S, lay))
             ok, key, what, cls = run_layout_case(M, S, lay, exe)
@@ -330,6 +441,12 @@ def main():
               ("; plus every per-comma assignment of the four comma layouts x name separator {1,3 blanks} x {LF,CRLF} x trailing blanks {0,2}"
                if a.tier == "thorough" else "") +
               " (tab separators and blank/comment-only lines are rejected by the unchanged reader and not asserted)"
+              "; nearly rank-deficient family: A = U diag(3,2[,1],sigma) V^T (N=3,4) with exactly orthogonal rational U,V (Cayley transforms of "
+              "integer skew matrices; " + ("all ordered pairs" if a.tier == "thorough" else "3+2 pairs") + "), entries rounded to doubles, sigma "
+              "in {1e-5,3e-7,1e-7,1e-8}, b = U c with c_N in {3,-2} along the small left singular vector, r in {0,1e-12,1e-9,1e-6,1e-3,1}; "
+              "judged for r>0 against the exact rational solution for the doubles in the file within 2e-13*cond(A^T A+rI) of max|x| "
+              "(cond=(9+r)/(sigma^2+r)); cases with 2e-13*cond > 0.3 (r=1e-12 with sigma<=3e-7) and r=0 (outside the statement) only have "
+              "their table structure checked"
               ". Oracle: exact rational solution of (A^T A + r I)x = -A^T b from the file contents; each <name>.dpot.imc must hold exactly "
               "the rows of its index range (x column of the .imc file, flag i) with y equal to the solution to the printed 10 digits. "
               "distinct_nontrivial = distinct (N, split, sign pattern of the exact solution)")
@@ -362,6 +479,24 @@ def main():
             R.count("index_layout_ok")
             if j % 41 == 7:
                 R.sample(cs + " (%r) -> %s" % (render_index(S, lay), what))
+    base += j + 1
+    worst = 0.0
+    for j, c in enumerate(enumerate_ns_cases(a.tier)):
+        if not a.mine(base + j):
+            continue
+        R.eval()
+        ok, key, what, cls, ns = run_ns_case(*c, exe)
+        cs = ns_string(*c)
+        if not ok:
+            R.fail(key, what, cs)
+            R.count("nearsingular_failed")
+        else:
+            R.cls(cls)
+            R.count("nearsingular_judged_ok" if ns["judge"] else
+                    ("nearsingular_r0_values_not_judged" if c[4] == "0" else "nearsingular_too_ill_conditioned_not_judged"))
+            worst = max(worst, ns["ratio"])
+            if j % 37 == 9:
+                R.sample(cs + " -> " + what)
     shutil.rmtree("imc_case", ignore_errors=True)
     R.write(a.out)
     return 0
